@@ -55,6 +55,7 @@ int getentropy(void *buf, size_t len) { fill_random(buf, len); return 0; }
 
 // ---------------------------------------------------------------- clock
 static volatile int64_t g_off_ns = 0;       // added to every clock
+static __thread int64_t t_off_ns = 0;        // per-thread virtual time (searches that replay in parallel)
 static volatile int g_frozen = 0;
 static struct timespec g_frozen_real, g_frozen_mono;
 
@@ -67,12 +68,12 @@ int clock_gettime(clockid_t c, struct timespec *ts) {
     if (g_frozen && (c == CLOCK_REALTIME || c == CLOCK_MONOTONIC || c == CLOCK_MONOTONIC_RAW ||
                      c == CLOCK_BOOTTIME || c == CLOCK_REALTIME_COARSE || c == CLOCK_MONOTONIC_COARSE)) {
         *ts = (c == CLOCK_REALTIME || c == CLOCK_REALTIME_COARSE) ? g_frozen_real : g_frozen_mono;
-        add_ns(ts, g_off_ns);
+        add_ns(ts, g_off_ns + t_off_ns);
         return 0;
     }
     int r = real_clock_gettime(c, ts);
     if (r == 0 && (c == CLOCK_REALTIME || c == CLOCK_MONOTONIC || c == CLOCK_MONOTONIC_RAW || c == CLOCK_BOOTTIME ||
-                   c == CLOCK_REALTIME_COARSE || c == CLOCK_MONOTONIC_COARSE)) add_ns(ts, g_off_ns);
+                   c == CLOCK_REALTIME_COARSE || c == CLOCK_MONOTONIC_COARSE)) add_ns(ts, g_off_ns + t_off_ns);
     return r;
 }
 int gettimeofday(struct timeval *tv, void *tz) {
@@ -84,6 +85,8 @@ time_t time(time_t *t) { struct timespec ts; clock_gettime(CLOCK_REALTIME, &ts);
 
 void verifenv_clock_advance_ms(int64_t ms) { __sync_fetch_and_add(&g_off_ns, ms * 1000000LL); }
 void verifenv_clock_reset(void) { g_off_ns = 0; }
+void verifenv_clock_thread_advance_ms(int64_t ms) { t_off_ns += ms * 1000000LL; }
+void verifenv_clock_thread_reset(void) { t_off_ns = 0; }
 int64_t verifenv_clock_offset_ms(void) { return g_off_ns / 1000000LL; }
 // freeze: real-time clock reads `epoch_s` (seconds since the epoch), monotonic reads 1000 s; both + offset
 void verifenv_clock_freeze(int64_t epoch_s) {
